@@ -114,6 +114,7 @@ pub fn make_token(r: &mut Rng, claims: &Value, marks: &[TPath], bound: bool, use
 
 pub fn generate(thorough: bool, seed: u64, em: &mut Emitter) {
     super::c06::generate_sibling_names(seed, em);
+    generate_large(seed, if thorough { 40 } else { 8 }, false, em);
     let mut r = Rng::new(seed ^ 0xC02);
     let n = if thorough { 30_000 } else { 2_000 };
     for i in 0..n {
@@ -146,6 +147,31 @@ pub fn generate(thorough: bool, seed: u64, em: &mut Emitter) {
             case["redact_after"] = json!([redact[cut1..cut2].to_vec(), redact[cut2..].to_vec()]);
             case["tag"] = json!("staged_redaction");
         }
+        em.case("present", case);
+    }
+}
+
+/// large documents through Holder::presentation -> redact (many paths) -> build -> Verifier::verify
+pub fn generate_large(seed: u64, n: usize, judge_disclosures: bool, em: &mut Emitter) {
+    let mut r = Rng::new(seed ^ 0xC02_1A26E);
+    for v in 0..n {
+        let mut rc = r.fork();
+        let r = &mut rc;
+        let (claims, marks) = gen::large_claims_and_marking(r, v);
+        let (token, tok, clear) = match make_token(r, &claims, &marks, false, v % 2 == 0) {
+            Some(x) => x,
+            None => continue,
+        };
+        // many redactions, or all of them, or none
+        let redact: Vec<String> = match v % 3 {
+            0 => marks.iter().filter(|_| r.chance(1, 2)).map(gen::render).collect(),
+            1 => marks.iter().map(gen::render).collect(),
+            _ => vec![],
+        };
+        let mut case = present_case(&tok, &token, &clear, &redact, Value::Null, 1, json!({"kbpol": Value::Null}));
+        case["judge_disclosures"] = json!(judge_disclosures);
+        case["nontrivial"] = json!(true);
+        case["tag"] = json!("large_document");
         em.case("present", case);
     }
 }
